@@ -40,7 +40,23 @@ METHODS = ["LSODA", "Radau", "BDF"]
 STATES = [[0.5, 2.0, 1.5], [2.0, 0.5, 3.0], [1.0, 1.0, 1.0], [3.0, 0.25, 0.5]]
 
 
+def loop_rate(s, k):
+    """A rate law outside the translatable subset (a loop): k * s, written so that nothing can convert it."""
+    tot = 0.0
+    for _ in range(4):
+        tot += k * s / 4
+    return tot
+
+
 def build_model(c, stiff=False):
+    m = _build_model(c, stiff)
+    if c.get("untr"):
+        first = m.get_variable_names()[0]
+        m.add_reaction("vu", loop_rate, args=[first, "kin"], stoichiometry={first: -1})
+    return m
+
+
+def _build_model(c, stiff=False):
     from mxlpy import Derived, InitialAssignment, Model, fns
 
     m = Model()
@@ -147,6 +163,12 @@ def generate(tier):
             continue
         cases.append({"net": net, "dorder": dorder, "coef": coef, "untouched": untouched, "time": time, "ia": ia,
                       "ratedep": ratedep, "mode": f"simulate:{method}"})
+    # a rate law that cannot be converted: to_symbolic_model raises, the simulator falls back with a warning
+    for net, dorder, coef in it.product(NETWORKS, [[], ["d2", "d1"]], ("num", "pcomp")):
+        base = {"net": net, "dorder": dorder, "coef": coef, "untouched": 0, "time": 0, "ia": 0, "ratedep": 0, "untr": 1}
+        cases.append({**base, "mode": "symbolic"})
+        for method in METHODS:
+            cases.append({**base, "mode": f"simulate:{method}"})
     return cases
 
 
@@ -181,6 +203,13 @@ def check_symbolic(case, nt):
     from mxlpy import to_symbolic_model
 
     txt = f"{case}"
+    if case.get("untr"):
+        try:
+            sm = to_symbolic_model(build_model(case))
+        except Exception:  # noqa: BLE001 - "anything that cannot be converted raises"
+            return outcome(True, "conversion-refused", nontrivial=True)
+        return outcome(False, "converted-untranslatable", symptom="converted-untranslatable", nontrivial=True,
+                       detail=f"a rate law with a loop cannot be converted, yet equations came back: {sm.eqs} | {txt}")
     for setting in (0, 1):
         m = build_model(case)
         if setting == 1:
@@ -268,6 +297,8 @@ def check_simulation(case, nt):
     lg = logging.getLogger("mxlpy.simulator")
     old_level = lg.level
     lg.setLevel(logging.WARNING)
+    old_prop = lg.propagate
+    lg.propagate = False  # the records are collected here, not printed
     lg.addHandler(h)
     try:
         t_end = 2.0
@@ -281,6 +312,9 @@ def check_simulation(case, nt):
         except Exception as exc:  # noqa: BLE001
             return outcome(False, "simulator-raised", symptom=f"simulator-construction-raised:{type(exc).__name__}", nontrivial=nt, detail=f"{exc} | {txt}")
         jac = sim.integrator.jacobian
+        if case.get("untr") and jac is not None:
+            return outcome(False, "jacobian-for-untranslatable", symptom="jacobian-for-untranslatable", nontrivial=True,
+                           detail=f"a model with an untranslatable rate law got a Jacobian instead of the documented fallback | {txt}")
         if jac is None:
             if not any(r.levelno >= logging.WARNING for r in records):
                 return outcome(False, "silent-fallback", symptom="silent-fallback", nontrivial=nt, detail=f"Jacobian dropped without a warning | {txt}")
@@ -317,6 +351,7 @@ def check_simulation(case, nt):
     finally:
         lg.removeHandler(h)
         lg.setLevel(old_level)
+        lg.propagate = old_prop
 
 
 def _history_model(variant):
